@@ -1,22 +1,12 @@
 (* EBLIF engine, connectivity clause of C18: the side conditions [sideOK] of the run (BlifNetsRun.v)
-   follow from the boolean checks of BlifSpec.supported on the section (conns_last, nodup of the
-   .conn operands, conn_fresh, bb_shape) and from the header order.  Lists only. *)
+   follow from the boolean check bb_shape of BlifSpec.supported on the section and from the header
+   order.  Lists only. *)
 From Coq Require Import List Arith NArith Bool Lia Permutation.
 From SV Require Import Base.Base Fmt.Blif Fmt.BlifRead Fmt.BlifSpec
   Proofs.BlifBase Proofs.BlifNetsBase Proofs.BlifNetsRel Proofs.BlifNetsSpec Proofs.BlifNetsShape
   Proofs.BlifWF Proofs.BlifExec Proofs.BlifNetsView Proofs.BlifNetsStep Proofs.BlifNetsInst Proofs.BlifNetsConn
   Proofs.BlifNetsExec Proofs.BlifNetsRun.
 Import ListNotations.
-
-Definition ops (cs : list (netbit * netbit)) : list str := flat_map (fun xy => [fst (fst xy); fst (snd xy)]) cs.
-Definition merges (cs : list (netbit * netbit)) : list str :=
-  map (fun xy => merge_name (fst (fst xy)) (snd (fst xy)) (fst (snd xy)) (snd (snd xy))) cs.
-
-Lemma touched_in c cs : In c (touched cs) -> In c (ops cs) \/ In c (merges cs).
-Proof.
-  unfold touched, ops, merges. induction cs as [|xy cs IH]; cbn; [tauto|].
-  intros [H|[H|[H|H]]]; auto. destruct (IH H); auto.
-Qed.
 
 Definition attach_stmt (x : stmt) : Prop :=
   match x with SInputs _ | SOutputs _ | SSub _ _ _ | SNames _ | SLatch _ => True | _ => False end.
@@ -27,10 +17,6 @@ Definition nph (x : stmt) : nat :=
   match x with SInputs _ => 0 | SOutputs _ => 1 | SClock _ => 2 | _ => 3 end.
 
 Record Pre (ph : nat) (st : nst) (body : list stmt) : Prop := {
-  p_last : conns_last body = true;
-  p_noatt : n_conns st <> [] -> Forall (fun x => ~ attach_stmt x) body;
-  p_nodup : NoDup (ops (n_conns st) ++ conn_cables body);
-  p_fresh : forall c, In c (conn_cables body) -> ~ In c (merges (n_conns st) ++ conn_merge_names body);
   p_bb : n_bb st = true -> Forall quiet_stmt body;
   p_shape : has_blackbox body = true -> Forall hb_stmt body;
   p_hdr : hdr_body ph body;
@@ -43,42 +29,21 @@ Proof.
   constructor; [|apply IH; assumption]. split; [intros []|]. intros a b E. discriminate.
 Qed.
 
-Lemma conn_cables_cons x body :
-  conn_cables (x :: body) = (match x with SConn _ _ => cables_of_stmt x | _ => [] end) ++ conn_cables body.
-Proof. reflexivity. Qed.
-
-Lemma NoDup_drop_mid {A} (a b c : list A) : NoDup (a ++ b ++ c) -> NoDup (a ++ c).
-Proof.
-  intro H. apply NoDup_app_iff in H as [H1 [H2 H3]]. apply NoDup_app_iff in H2 as [H4 [H5 H6]].
-  apply NoDup_app_iff. repeat split; auto. intros x Hx Hc. apply (H3 x Hx). apply in_app_iff. auto.
-Qed.
-
 Lemma has_blackbox_cons x body : has_blackbox (x :: body) = (match x with SBlackbox => true | _ => false end) || has_blackbox body.
 Proof. reflexivity. Qed.
 
 Definition vis (x : stmt) : Prop := match x with SModel _ | SEnd | SComment _ => False | _ => True end.
 
-Lemma conns_last_tail x body : conns_last (x :: body) = true -> conns_last body = true.
-Proof. destruct x; cbn; auto. intro H. apply andb_true_iff in H. tauto. Qed.
-
 Lemma pre_step ph st x body :
   Pre ph st (x :: body) -> vis x -> cond x st /\ Pre (nph x) (step_n x st) body.
 Proof.
-  intros [P1 P2 P3 P4 P5 P6 P7 P8] Hv.
-  assert (Hatt : attach_stmt x -> n_conns st = [] /\ n_bb st = false).
-  { intro Ha. split.
-    - destruct (n_conns st) eqn:E; [reflexivity|]. exfalso. assert (Hn : n_conns st <> []) by (rewrite E; discriminate).
-      rewrite <- E in *. specialize (P2 Hn). inversion P2; subst. contradiction.
-    - destruct (n_bb st) eqn:E; [|reflexivity]. exfalso. specialize (P5 eq_refl). inversion P5 as [|? ? [Hq _] _]; subst. contradiction. }
-  assert (Htail : forall st', n_conns st' = n_conns st -> n_bb st' = n_bb st -> n_outn st' = n_outn st \/ nph x <> 0 ->
+  intros [P5 P6 P7 P8] Hv.
+  assert (Hatt : (attach_stmt x \/ exists a b, x = SConn a b) -> n_bb st = false).
+  { intro Ha. destruct (n_bb st) eqn:E; [|reflexivity]. exfalso. specialize (P5 eq_refl). inversion P5 as [|? ? [Hq1 Hq2] _]; subst.
+    destruct Ha as [Ha|[a [b ->]]]; [contradiction|]. eapply Hq2; reflexivity. }
+  assert (Htail : forall st', n_bb st' = n_bb st -> n_outn st' = n_outn st \/ nph x <> 0 ->
             x <> SBlackbox -> Pre (nph x) st' body).
-  { intros st' E1 E2 E3 Hnb. constructor; rewrite ?E1, ?E2.
-    - eapply conns_last_tail; eauto.
-    - intro Hn. specialize (P2 Hn). inversion P2; assumption.
-    - rewrite conn_cables_cons in P3. apply (NoDup_drop_mid _ _ _ P3).
-    - intros c Hc. assert (Hc' : In c (conn_cables (x :: body))) by (rewrite conn_cables_cons; apply in_app_iff; auto).
-      specialize (P4 c Hc'). intro Hin. apply P4. apply in_app_iff in Hin as [Hin|Hin]; apply in_app_iff; [auto|right].
-      unfold conn_merge_names in *. cbn [flat_map]. apply in_app_iff. auto.
+  { intros st' E2 E3 Hnb. constructor; rewrite ?E2.
     - intro Hb. specialize (P5 Hb). inversion P5; assumption.
     - intro Hb. assert (Hb' : has_blackbox (x :: body) = true) by (rewrite has_blackbox_cons, Hb; apply orb_true_r).
       specialize (P6 Hb'). inversion P6; assumption.
@@ -86,62 +51,26 @@ Proof.
     - intro E. destruct E3 as [E3|E3]; [|contradiction]. rewrite E3. destruct x; cbn in E; try discriminate.
       apply P8. cbn in P7. tauto. }
   destruct x; try contradiction.
-  - (* .inputs *) destruct (Hatt I) as [C1 C2]. cbn in P7. destruct P7 as [-> P7].
+  - (* .inputs *) pose proof (Hatt (or_introl I)) as C2. cbn in P7. destruct P7 as [-> P7].
     split; [cbn; auto|]. apply Htail; cbn [step_n]; rewrite ?in_toks_eq; try reflexivity; try discriminate; auto.
-  - destruct (Hatt I) as [C1 C2]. split; [cbn; auto|].
+  - pose proof (Hatt (or_introl I)) as C2. split; [cbn; auto|].
     apply Htail; cbn [step_n]; rewrite ?out_toks_eq; try reflexivity; try discriminate. right. cbn. discriminate.
   - split; [exact I|]. apply Htail; try reflexivity; try discriminate. right. cbn. discriminate.
-  - destruct (Hatt I) as [C1 C2]. split; [cbn; auto|]. apply Htail; try reflexivity; try discriminate. right. cbn. discriminate.
-  - destruct (Hatt I) as [C1 C2]. split; [cbn; auto|]. apply Htail; try reflexivity; try discriminate. right. cbn. discriminate.
+  - pose proof (Hatt (or_introl I)) as C2. split; [cbn; auto|]. apply Htail; try reflexivity; try discriminate. right. cbn. discriminate.
+  - pose proof (Hatt (or_introl I)) as C2. split; [cbn; auto|]. apply Htail; try reflexivity; try discriminate. right. cbn. discriminate.
   - split; [exact I|]. apply Htail; try reflexivity; try discriminate. right. cbn. discriminate.
-  - destruct (Hatt I) as [C1 C2]. split; [cbn; auto|]. apply Htail; try reflexivity; try discriminate. right. cbn. discriminate.
+  - pose proof (Hatt (or_introl I)) as C2. split; [cbn; auto|]. apply Htail; try reflexivity; try discriminate. right. cbn. discriminate.
   - split; [exact I|]. apply Htail; try reflexivity; try discriminate. right. cbn. discriminate.
   - split; [exact I|]. apply Htail; try reflexivity; try discriminate. right. cbn. discriminate.
   - split; [exact I|]. apply Htail; try reflexivity; try discriminate. right. cbn. discriminate.
   - (* .conn *)
-    assert (Cbb : n_bb st = false).
-    { destruct (n_bb st) eqn:E; [|reflexivity]. exfalso. specialize (P5 eq_refl). inversion P5 as [|? ? [_ Hq] _]; subst.
-      eapply Hq; reflexivity. }
-    cbn [conns_last] in P1. apply andb_true_iff in P1 as [P1a P1b].
-    assert (Hquiet : Forall (fun x => ~ attach_stmt x) body).
-    { apply Forall_forall. intros y Hy Ha. rewrite forallb_forall in P1a. specialize (P1a y Hy). destruct y; try discriminate; contradiction. }
-    rewrite conn_cables_cons in P3. cbn [cables_of_stmt] in P3.
-    cbn [step_n cond nph]. destruct (nb_of a) as [[an ai]|] eqn:Ea; destruct (nb_of b) as [[bn bi]|] eqn:Eb.
-    + cbn [app] in P3. split.
-      * split; [exact Cbb|]. intros an' ai' bn' bi' E1 E2. inversion E1; inversion E2; subst.
-        assert (Hnd2 := P3). apply NoDup_app_iff in Hnd2 as [_ [Hnd2 Hdis]]. inversion Hnd2 as [|? ? Hn1 Hn2]; subst.
-        split; [intro E; subst; apply Hn1; left; reflexivity|].
-        split; intro Ht; apply touched_in in Ht as [Ht|Ht].
-        -- apply (Hdis _ Ht). left. reflexivity.
-        -- apply (P4 an'); [rewrite conn_cables_cons; cbn [cables_of_stmt]; rewrite Ea; left; reflexivity|]. apply in_app_iff. auto.
-        -- apply (Hdis _ Ht). right. left. reflexivity.
-        -- apply (P4 bn'); [rewrite conn_cables_cons; cbn [cables_of_stmt]; rewrite Ea, Eb; right; left; reflexivity|]. apply in_app_iff. auto.
-      * constructor; cbn [n_conns n_bb n_outn].
-        -- exact P1b.
-        -- intros _. exact Hquiet.
-        -- unfold ops in *. rewrite flat_map_app. cbn [flat_map fst snd app]. rewrite <- app_assoc. exact P3.
-        -- intros c Hc. assert (Hc' : In c (conn_cables (SConn a b :: body))) by (rewrite conn_cables_cons; apply in_app_iff; auto).
-           specialize (P4 c Hc'). intro Hin. apply P4. unfold merges in *. rewrite map_app in Hin. cbn [map fst snd] in Hin.
-           unfold conn_merge_names in *. cbn [flat_map]. rewrite Ea, Eb.
-           apply in_app_iff in Hin as [Hin|Hin]; [apply in_app_iff in Hin as [Hin|[<-|[]]]|]; apply in_app_iff; auto.
-           ++ right. left. reflexivity.
-           ++ right. right. exact Hin.
-        -- intro Hb. congruence.
-        -- intro Hb. assert (Hb' : has_blackbox (SConn a b :: body) = true) by (rewrite has_blackbox_cons, Hb; reflexivity).
-           specialize (P6 Hb'). inversion P6; assumption.
-        -- cbn in P7. exact P7.
-        -- discriminate.
-    + split; [split; [exact Cbb|]; intros; discriminate|]. apply (Htail st); try reflexivity; try discriminate. right. cbn. discriminate.
-    + split; [split; [exact Cbb|]; intros; discriminate|]. apply (Htail st); try reflexivity; try discriminate. right. cbn. discriminate.
-    + split; [split; [exact Cbb|]; intros; discriminate|]. apply (Htail st); try reflexivity; try discriminate. right. cbn. discriminate.
+    assert (Cbb : n_bb st = false) by (apply Hatt; right; eauto).
+    split; [exact Cbb|]. apply Htail; try discriminate; [|right; cbn; discriminate].
+    cbn [step_n]. destruct (nb_of a), (nb_of b); reflexivity.
   - (* .blackbox *)
     split; [exact I|]. cbn [step_n nph]. cbn in P7.
     assert (Hall : Forall hb_stmt (SBlackbox :: body)) by (apply P6; reflexivity). inversion Hall as [|? ? _ Hb]; subst.
     constructor; cbn [n_conns n_bb n_outn].
-    + eapply conns_last_tail; eauto.
-    + intro Hn. specialize (P2 Hn). inversion P2; assumption.
-    + exact P3.
-    + intros c Hc. exact (P4 c Hc).
     + intros _. apply hb_after_bb; assumption.
     + intros _. exact Hb.
     + exact P7.
@@ -152,7 +81,7 @@ Qed.
 Lemma sideOK_of nm ss : forall cur st,
   NoDup (model_names ss) -> (nm = cur -> ~ In nm (model_names ss)) ->
   (nm = cur -> exists ph, Pre ph st (body_of nm cur ss)) ->
-  (In nm (model_names ss) -> Pre 0 st (body_of nm cur ss) /\ n_bb st = false) ->
+  (In nm (model_names ss) -> Pre 0 st (body_of nm cur ss) /\ n_bb st = false /\ n_att st = [] /\ n_conns st = []) ->
   sideOK nm cur ss st.
 Proof.
   induction ss as [|x r IH]; intros cur st Hnd Hc Hp Hf; [exact I|]. cbn [sideOK].
@@ -172,11 +101,11 @@ Proof.
   - (* .model *)
     cbn [model_names next_c step_g] in *. inversion Hnd as [|? ? Hn1 Hn2]; subst.
     split; [intros _; exact I|]. split.
-    + intros c Ex En. inversion Ex as [Ec']. apply Hf. left. congruence.
+    + intros c Ex En. inversion Ex as [Ec']. assert (Hin : In nm (nm0 :: model_names r)) by (left; congruence). destruct (Hf Hin) as [_ A]. exact A.
     + destruct (str_eqb nm nm0) eqn:E.
       * apply str_eqb_spec in E. subst nm0. destruct (Hf (or_introl eq_refl)) as [Hpre Hb]. rewrite body_of_cons in Hpre.
         apply IH; [exact Hn2|intros _; exact Hn1| |intro Hin; contradiction].
-        intros _. exists 0. destruct Hpre as [P1 P2 P3 P4 P5 P6 P7 P8]. constructor; auto.
+        intros _. exists 0. destruct Hpre as [P5 P6 P7 P8]. constructor; auto.
       * pose proof E as E'. apply str_eqb_false in E'. apply IH; [exact Hn2|intro E2; congruence|intro E2; congruence|].
         intro Hin. specialize (Hf (or_intror Hin)). rewrite body_of_cons in Hf. exact Hf.
   - (* .end *)
@@ -184,29 +113,14 @@ Proof.
     split; [intros _; exact I|]. split; [intros c Ex; discriminate|].
     destruct (str_eqb nm cur) eqn:E.
     + apply IH; [exact Hnd|exact Hc| |intro Hin; apply str_eqb_spec in E; exfalso; exact (Hc E Hin)].
-      intro En. destruct (Hp En) as [ph [P1 P2 P3 P4 P5 P6 P7 P8]]. exists ph. constructor; auto.
+      intro En. destruct (Hp En) as [ph [P5 P6 P7 P8]]. exists ph. constructor; auto.
     + apply IH; auto.
 Qed.
 
-(* the start: the booleans of BlifSpec.body_ok and the header order give [Pre] *)
-Lemma nodup_strs_NoDup' l : nodup_strs l = true -> NoDup l.
+(* the start: the boolean bb_shape of BlifSpec.body_ok and the header order give [Pre] *)
+Lemma pre_start body : bb_shape body = true -> hdr_body 0 body -> Pre 0 st0 body.
 Proof.
-  induction l as [|x l IH]; cbn; intro H; [constructor|].
-  apply andb_true_iff in H as [H1 H2]. constructor; [|auto].
-  intro Hin. apply negb_true_iff in H1. assert (existsb (str_eqb x) l = true); [|congruence].
-  apply existsb_exists. exists x. split; [assumption|apply str_eqb_refl].
-Qed.
-
-Lemma pre_start body :
-  conns_last body = true -> nodup_strs (conn_cables body) = true -> conn_fresh body = true ->
-  bb_shape body = true -> hdr_body 0 body -> Pre 0 st0 body.
-Proof.
-  intros H1 H2 H3 H4 H5. constructor; cbn [st0 n_conns n_bb n_outn ops merges flat_map map app]; auto.
-  - intro H. contradiction.
-  - apply nodup_strs_NoDup'. exact H2.
-  - intros c Hc Hin. unfold conn_fresh in H3. rewrite forallb_forall in H3. specialize (H3 c Hc).
-    apply negb_true_iff in H3. assert (existsb (str_eqb c) (conn_merge_names body) = true); [|congruence].
-    apply existsb_exists. exists c. split; [exact Hin|apply str_eqb_refl].
+  intros H4 H5. constructor; cbn [st0 n_conns n_bb n_outn]; auto.
   - discriminate.
   - intro Hb. unfold bb_shape in H4. rewrite Hb in H4. cbn in H4. apply Forall_forall. intros x Hx.
     rewrite forallb_forall in H4. specialize (H4 x Hx). destruct x; try discriminate; exact I.
